@@ -51,6 +51,21 @@ HOSTILE_ITEMS = """\
         #[allow(dead_code)] pub mod iter {}
         #[allow(dead_code)] pub mod option {}
         #[allow(dead_code)] pub mod result {}
+        // modules named like core's integer / str modules (`use std::u8;` style): paths such as `i8::MIN` resolve to
+        // them first, while the primitive types themselves stay usable in type position
+        #[allow(dead_code, non_upper_case_globals)] pub mod i8 { pub const MIN: u8 = 7; pub const MAX: u8 = 9; pub const BITS: u8 = 3; }
+        #[allow(dead_code)] pub mod u8 { pub const MIN: i64 = 7; pub const MAX: i64 = 9; }
+        #[allow(dead_code)] pub mod i16 { pub const MIN: u8 = 7; pub const MAX: u8 = 9; }
+        #[allow(dead_code)] pub mod u16 { pub const MIN: u8 = 7; pub const MAX: u8 = 9; }
+        #[allow(dead_code)] pub mod i32 { pub const MIN: u8 = 7; pub const MAX: u8 = 9; }
+        #[allow(dead_code)] pub mod u32 { pub const MIN: u8 = 7; pub const MAX: u8 = 9; }
+        #[allow(dead_code)] pub mod i64 { pub const MIN: u8 = 7; pub const MAX: u8 = 9; }
+        #[allow(dead_code)] pub mod u64 { pub const MIN: u8 = 7; pub const MAX: u8 = 9; }
+        #[allow(dead_code)] pub mod i128 { pub const MIN: u8 = 7; pub const MAX: u8 = 9; }
+        #[allow(dead_code)] pub mod u128 { pub const MIN: u8 = 7; pub const MAX: u8 = 9; }
+        #[allow(dead_code)] pub mod isize { pub const MIN: u8 = 7; pub const MAX: u8 = 9; }
+        #[allow(dead_code)] pub mod usize { pub const MIN: u8 = 7; pub const MAX: u8 = 9; }
+        #[allow(dead_code)] pub mod str { pub fn from_utf8() {} }
         #[allow(dead_code)] pub fn transmute() {}
         #[allow(dead_code)] pub fn drop() {}
         #[allow(unused_macros)] macro_rules! Some { ($($t:tt)*) => { compile_error!("user macro Some! used") } }
